@@ -330,8 +330,8 @@ theorem keepExport_core {s : AggState} {F : Forest} (hA : AInv W s) (hnd : F.nam
   -- both trees are resource-free leaf trees: the checker's relation is equality
   have hrs : ts.resourceFree = true := rf_unfoldLeaf hs.nores lk hts
   have hrf : tf.resourceFree = true := rf_unfoldLeaf hA.nores ltk htf
-  have heqs : isEqKind ts = true := eqKind_unfoldLeaf lk hts
-  have heqf : isEqKind tf = true := eqKind_unfoldLeaf ltk htf
+  have heqs : isEqK ts = true := eqKind_unfoldLeaf lk hts
+  have heqf : isEqK tf = true := eqKind_unfoldLeaf ltk htf
   obtain ⟨r, c', hr, hiff, hnp, hc'⟩ := chkSubtype_leaf s hA.cinv types s.agg.types (.inl hW) (.inr rfl) sk tk lk ltk
     ts tf (hC_fuel _ (by simp [checkFuel])) (hT_fuel _ (by simp [checkFuel])) htsnd htfnd
   rw [subNames_leaf_eq heqs hrs hrf] at hiff
@@ -339,6 +339,7 @@ theorem keepExport_core {s : AggState} {F : Forest} (hA : AInv W s) (hnd : F.nam
   · intro hok
     have hEq : ts = tf := hiff.1 hok
     subst hEq
+    have hsame := leaf_same_tree lk ltk hts htf
     refine ⟨?_, ?_, ?_⟩
     · refine ⟨Ext.refl _, rfl, fun _ _ => rfl, rfl, rfl, rfl, rfl, rfl, rfl, ?_⟩
       intro g hid hg
@@ -352,84 +353,24 @@ theorem keepExport_core {s : AggState} {F : Forest} (hA : AInv W s) (hnd : F.nam
       rotate_left
       · -- the recorded replacement has the shape of the source kind
         refine hA.rinv.shape.insert _ _ (fun d hd => ?_) (fun f hf => ?_)
-        · cases sk with
-          | value v =>
-            cases tk with
-            | value v0 => exact ⟨v0, rfl⟩
-            | func f0 =>
-              exfalso
-              obtain ⟨a, p, r, hsh⟩ := unfoldFunc_shape _ _ f0 _ (shape_func _ (m - 1) f0 ts (by
-                cases m with
-                | zero => simp [Types.unfoldKind] at htf
-                | succ m => exact htf))
-              cases hC_fuel' : types.fuel with
-              | zero => rw [hC_fuel'] at hts; simp [Types.unfoldKind] at hts
-              | succ N =>
-                rw [hC_fuel'] at hts
-                simp only [Types.unfoldKind] at hts
-                obtain ⟨x, _, hx'⟩ := Option.map_eq_some_iff.1 hts
-                rw [hsh] at hx'; cases hx'
-            | _ => cases ltk
-          | func f0 => simp [GTy.mk', ItemKind.ty] at hd
-          | _ => cases lk
-        · cases sk with
-          | func f0 =>
-            cases tk with
-            | func f1 => exact ⟨f1, rfl⟩
-            | value v0 =>
-              exfalso
-              cases hC_fuel' : types.fuel with
-              | zero => rw [hC_fuel'] at hts; simp [Types.unfoldKind] at hts
-              | succ N =>
-                rw [hC_fuel'] at hts
-                obtain ⟨a, p, r, hsh⟩ := unfoldFunc_shape _ _ f0 _ (shape_func _ N f0 ts hts)
-                cases m with
-                | zero => simp [Types.unfoldKind] at htf
-                | succ m =>
-                  simp only [Types.unfoldKind] at htf
-                  obtain ⟨x, _, hx'⟩ := Option.map_eq_some_iff.1 htf
-                  rw [hsh] at hx'; cases hx'
-            | _ => cases ltk
-          | value v => simp [GTy.mk', ItemKind.ty] at hf
-          | _ => cases lk
+        · obtain ⟨v0, _, h0, _, _⟩ := hsame.1 (.defined d) (by simpa [GTy.mk'] using hd)
+          exact ⟨v0, h0⟩
+        · obtain ⟨f0, _, h0, _, _⟩ := hsame.2 f (by simpa [GTy.mk'] using hf)
+          exact ⟨f0, h0⟩
       intro C hC
       obtain ⟨k1, k2⟩ := hA.rinv.sound C hC
       refine ⟨fun d v' hg t ht => ?_, fun f f' hg t ht => ?_⟩
       · simp only [keepState, alGet_alInsert] at hg
         split at hg
         · rename_i he
-          obtain ⟨rfl, hty⟩ := gty_mk_inj hW hC (by
-            have := eq_of_beq he
-            cases sk <;> first | cases lk | skip
-            · simp only [ItemKind.ty, GTy.mk', GTy.mk.injEq] at this; cases this.2
-            · simp only [ItemKind.ty, GTy.mk', GTy.mk.injEq] at this
-              obtain ⟨_, h2⟩ := this
-              cases h2; rfl) (eq_of_beq he)
-          -- the source is `value (defined d)`, the target a value kind with the same tree
-          cases sk with
-          | value v =>
-            simp only [ItemKind.ty, Ty.value.injEq] at hty
-            subst hty
-            cases tk with
-            | value v0 =>
-              simp only [ItemKind.ty, Option.some.injEq, Ty.value.injEq] at hg
-              subst hg
-              obtain ⟨mt, hmt⟩ := ht
-              have h1 : types.unfoldKind (mt + 1) (.value (.defined d)) = some (.value t) := by
-                simp [Types.unfoldKind, hmt]
-              have := unfoldKind_det types h1 hts
-              subst this
-              cases m with
-              | zero => simp [Types.unfoldKind] at htf
-              | succ m =>
-                simp only [Types.unfoldKind] at htf
-                obtain ⟨x, hx, hx'⟩ := Option.map_eq_some_iff.1 htf
-                cases hx'
-                exact ⟨m, hx⟩
-            | func f0 => simp [ItemKind.ty] at hg
-            | _ => cases ltk
-          | func f0 => simp [ItemKind.ty] at hty
-          | _ => cases lk
+          obtain ⟨hCeq, hty⟩ := gty_mk_inj hC hW (ty := .value (.defined d)) rfl (eq_of_beq he).symm
+          have hCeq' := hCeq.symm
+          subst hCeq'
+          obtain ⟨v0, x, h0, hx1, hx2⟩ := hsame.1 (.defined d) hty.symm
+          rw [h0] at hg
+          simp only [Option.some.injEq, Ty.value.injEq] at hg
+          subst hg
+          rw [HasVT.det ht hx1]; exact hx2
         · exact k1 d v' hg t ht
       · simp only [keepState, alGet_alInsert] at hg
         split at hg
@@ -437,27 +378,11 @@ theorem keepExport_core {s : AggState} {F : Forest} (hA : AInv W s) (hnd : F.nam
           obtain ⟨hCeq, hty⟩ := gty_mk_inj hC hW (ty := .func f) rfl (eq_of_beq he).symm
           have hCeq' := hCeq.symm
           subst hCeq'
-          cases sk with
-          | func f0 =>
-            simp only [ItemKind.ty, Ty.func.injEq] at hty
-            subst hty
-            cases tk with
-            | func f1 =>
-              simp only [ItemKind.ty, Option.some.injEq, Ty.func.injEq] at hg
-              subst hg
-              obtain ⟨mt, hmt⟩ := ht
-              have h1 : types.unfoldKind (mt + 1) (.func f) = some t := by simp [Types.unfoldKind, hmt]
-              have := unfoldKind_det types h1 hts
-              subst this
-              cases m with
-              | zero => simp [Types.unfoldKind] at htf
-              | succ m =>
-                simp only [Types.unfoldKind] at htf
-                exact ⟨m, htf⟩
-            | value v0 => simp [ItemKind.ty] at hg
-            | _ => cases ltk
-          | value v => simp [ItemKind.ty] at hty
-          | _ => cases lk
+          obtain ⟨f0, x, h0, hx1, hx2⟩ := hsame.2 f hty.symm
+          rw [h0] at hg
+          simp only [Option.some.injEq, Ty.func.injEq] at hg
+          subst hg
+          rw [HasFn.det ht hx1]; exact hx2
         · exact k2 f f' hg t ht
     · intro tf' hf'
       rw [hFn] at hf'; cases hf'; rfl
@@ -549,6 +474,11 @@ theorem mergeExport_step (fuel : Nat) (n : Str) (sk : ItemKind) (s0 s1 : AggStat
       cases tk with
       | func _ => exact hb
       | value _ => exact hb
+      | type ty =>
+        cases ty with
+        | func _ => exact hb
+        | value _ => exact hb
+        | _ => cases ltk
       | _ => cases ltk
     clear hb
     simp only [bind_ok, hr, Except.ok.injEq, Prod.mk.injEq] at hb'
